@@ -3,6 +3,7 @@ package rules
 import (
 	"fmt"
 	"go/ast"
+	"go/parser"
 	"go/token"
 	"go/types"
 	"strings"
@@ -35,6 +36,8 @@ func pipe2Rules(c *Ctx) {
 	c.absJoinRule(reach)
 	c.recordRefreshRule(reach)
 	c.pointerPlanRule(reach)
+	c.rerunRule(reach)
+	c.resolvedVsRaw(reach)
 	c.sliceBounds(reach)
 	c.selfInline(reach)
 	c.panicBoundary()
@@ -220,9 +223,10 @@ func (c *Ctx) reinlineRule(reach []*core.FuncInfo) {
 			ev := &reinEval{c: c, fi: fi, info: info, key: call.Args[1], sch: call.Args[2]}
 			// the conditions under which the returned flag is raised after the write
 			type raise struct {
-				expr   ast.Expr
-				flag   types.Object
-				assign bool // flag = <expr> / return <expr>: the old value of the flag must survive
+				expr    ast.Expr
+				flag    types.Object
+				assign  bool // flag = <expr> / return <expr>: the old value of the flag must survive
+				flagSel ast.Expr
 			}
 			var raises []raise
 			ast.Inspect(fi.Decl.Body, func(nd ast.Node) bool {
@@ -232,7 +236,7 @@ func (c *Ctx) reinlineRule(reach []*core.FuncInfo) {
 						return true
 					}
 					if ev.mentionsComplex(x.Rhs[0], 0) {
-						raises = append(raises, raise{x.Rhs[0], core.ObjOf(info, x.Lhs[0]), true})
+						raises = append(raises, raise{x.Rhs[0], core.ObjOf(info, x.Lhs[0]), true, nil})
 					}
 				case *ast.IfStmt:
 					if x.Pos() < call.Pos() || x.Init != nil || !ev.mentionsComplex(x.Cond, 0) {
@@ -241,7 +245,7 @@ func (c *Ctx) reinlineRule(reach []*core.FuncInfo) {
 					for _, bs := range x.Body.List {
 						if as, ok := bs.(*ast.AssignStmt); ok && len(as.Lhs) == 1 && len(as.Rhs) == 1 && (c.flowsToReturn(fi, as.Lhs[0]) || c.fieldFlowsToReturn(fi, as.Lhs[0])) {
 							if tv, isC := info.Types[as.Rhs[0]]; isC && tv.Value != nil && tv.Value.String() == "true" {
-								raises = append(raises, raise{x.Cond, nil, false})
+								raises = append(raises, raise{x.Cond, nil, false, nil})
 							}
 						}
 					}
@@ -252,21 +256,29 @@ func (c *Ctx) reinlineRule(reach []*core.FuncInfo) {
 					}
 					// the flag: a bool local of the expression that is not itself the complexity result
 					var flag types.Object
+					var flagSel ast.Expr
 					ast.Inspect(x.Results[0], func(m ast.Node) bool {
 						if id, ok := m.(*ast.Ident); ok {
 							if o, isVar := info.Uses[id].(*types.Var); isVar && core.IsBool(o.Type()) && !ev.mentionsComplex(id, 0) {
 								flag = o
 							}
 						}
+						// a bool member of a state object
+						if sel, ok := m.(*ast.SelectorExpr); ok {
+							if fv := core.FieldOf(info, sel); fv != nil && core.IsBool(fv.Type()) {
+								flagSel = sel
+								return false
+							}
+						}
 						return true
 					})
-					raises = append(raises, raise{x.Results[0], flag, true})
+					raises = append(raises, raise{x.Results[0], flag, true, flagSel})
 				}
 				return true
 			})
 			ok, why := false, "no assignment to the returned flag after the write looks at isAnalyzedAsComplex() of the schema written"
 			for _, r := range raises {
-				ev.flag, ev.placeBad, ev.dirSeen = r.flag, "", 0
+				ev.flag, ev.flagSel, ev.placeBad, ev.dirSeen = r.flag, r.flagSel, "", 0
 				good, decided := true, true
 				ev.flagVal = false
 				for _, dirEq := range []bool{false, true} {
@@ -281,7 +293,7 @@ func (c *Ctx) reinlineRule(reach []*core.FuncInfo) {
 					}
 				}
 				monotone := true
-				if r.assign && r.flag != nil {
+				if r.assign && (r.flag != nil || r.flagSel != nil) {
 					ev.flagVal = true
 					for _, dirEq := range []bool{false, true} {
 						for _, cx := range []bool{false, true} {
@@ -329,9 +341,41 @@ type reinEval struct {
 	info     *types.Info
 	key, sch ast.Expr // the key and the schema of the write, as expressions of fi
 	flag     types.Object
+	flagSel  ast.Expr // the flag when it is a bool member of a state object (l.replacedWithComplex)
 	flagVal  bool
 	placeBad string
 	dirSeen  int
+}
+
+// norm renders an expression with the single-definition locals of the function expanded (r := l.ref; r.schema ->
+// l.ref.schema), so that two designators of the same member compare equal.
+func (r *reinEval) norm(e ast.Expr, depth int) string {
+	e = core.Unparen(e)
+	if depth > 4 {
+		return exprStr(e)
+	}
+	switch x := e.(type) {
+	case *ast.Ident:
+		if r.info != nil {
+			if o := core.ObjOf(r.info, x); o != nil {
+				if defs := r.c.P.Locals(r.fi).Defs[o]; len(defs) == 1 && defs[0].Kind == core.DefAssign && defs[0].Expr != nil {
+					if _, isVar := o.(*types.Var); isVar {
+						return r.norm(defs[0].Expr, depth+1)
+					}
+				}
+			}
+		}
+		return x.Name
+	case *ast.SelectorExpr:
+		return r.norm(x.X, depth+1) + "." + x.Sel.Name
+	case *ast.StarExpr:
+		return r.norm(x.X, depth+1)
+	case *ast.UnaryExpr:
+		if x.Op == token.AND {
+			return r.norm(x.X, depth+1)
+		}
+	}
+	return exprStr(e)
 }
 
 func (r *reinEval) local(e ast.Expr) ast.Expr {
@@ -351,6 +395,9 @@ func (r *reinEval) same(a, b ast.Expr) bool {
 		return false
 	}
 	if sameExpr(a, b) || sameExpr(r.local(a), b) || sameExpr(a, r.local(b)) || sameExpr(r.local(a), r.local(b)) {
+		return true
+	}
+	if r.norm(a, 0) == r.norm(b, 0) {
 		return true
 	}
 	oa, ob := core.ObjOf(r.info, a), core.ObjOf(r.info, b)
@@ -435,6 +482,10 @@ func (r *reinEval) eval(e ast.Expr, dirEq, cx bool, depth int) (bool, bool) {
 		}
 		if hc := r.helperCall(x); hc != nil {
 			return r.evalHelper(hc, dirEq, cx, depth)
+		}
+	case *ast.SelectorExpr:
+		if r.flagSel != nil && sameExpr(x, r.flagSel) {
+			return r.flagVal, true
 		}
 	case *ast.UnaryExpr:
 		if x.Op == token.NOT {
@@ -521,6 +572,46 @@ func (r *reinEval) evalHelper(call *ast.CallExpr, dirEq, cx bool, depth int) (bo
 		}
 		if len(f.Names) == 0 {
 			i++
+		}
+	}
+	// a method of a state object built in the caller: l := &T{f: V, …}; l.helper(…) — inside the helper, recv.f stands
+	// for V, so the schema (or key) of the write reached as V.rest is recv.f.rest there
+	if sel, isSel := core.Unparen(call.Fun).(*ast.SelectorExpr); isSel && g.Decl.Recv != nil && len(g.Decl.Recv.List) == 1 && len(g.Decl.Recv.List[0].Names) == 1 {
+		recvName := g.Decl.Recv.List[0].Names[0].Name
+		if o := core.ObjOf(r.info, sel.X); o != nil {
+			if defs := r.c.P.Locals(r.fi).Defs[o]; len(defs) == 1 && defs[0].Kind == core.DefAssign && defs[0].Expr != nil {
+				lit := core.Unparen(defs[0].Expr)
+				if u, isAddr := lit.(*ast.UnaryExpr); isAddr && u.Op == token.AND {
+					lit = core.Unparen(u.X)
+				}
+				if cl, isLit := lit.(*ast.CompositeLit); isLit {
+					for _, el := range cl.Elts {
+						kv, ok := el.(*ast.KeyValueExpr)
+						if !ok {
+							continue
+						}
+						fname, ok := kv.Key.(*ast.Ident)
+						if !ok {
+							continue
+						}
+						v := r.norm(kv.Value, 0)
+						for _, tgt := range []struct {
+							e   ast.Expr
+							set func(ast.Expr)
+						}{{r.sch, func(x ast.Expr) { sub.sch = x }}, {r.key, func(x ast.Expr) { sub.key = x }}} {
+							if tgt.e == nil {
+								continue
+							}
+							t := r.norm(tgt.e, 0)
+							if t == v || strings.HasPrefix(t, v+".") {
+								if px, err := parser.ParseExpr(recvName + "." + fname.Name + strings.TrimPrefix(t, v)); err == nil {
+									tgt.set(px)
+								}
+							}
+						}
+					}
+				}
+			}
 		}
 	}
 	var main ast.Expr
@@ -1392,7 +1483,7 @@ func (c *Ctx) isCanonicalRef(fi *core.FuncInfo, ref ast.Expr, site *ast.CallExpr
 	}
 	// (c) the reference already held at this key, with a prefix (the document part) stripped and nothing else:
 	// spec.MustCreateRef(strings.TrimPrefix(<w>.String(), X)) at the key k of `for k, w := range <index of $refs>`
-	if c.isStrippedSameRef(fi, ref, site) || c.isStrippedCollectedRef(fi, ref, site) {
+	if c.isStrippedSameRef(fi, ref, site) || c.isStrippedCollectedRef(fi, ref, site) || c.isStrippedRecordedRef(fi, ref, site) {
 		return true, "the $ref already at this key with its document part stripped (its fragment is unchanged: canonical exactly when it was)"
 	}
 	return false, ""
@@ -1526,6 +1617,96 @@ func (c *Ctx) isStrippedCollectedRef(fi *core.FuncInfo, ref ast.Expr, site *ast.
 		return true
 	})
 	return good && stores > 0
+}
+
+// isStrippedRecordedRef: the record variant of form (c): a first loop `for k, w := range <refs>` appends
+// T{key: k, target: <w.String(), prefix stripped>} to a local list, a second loop `for _, r := range list` rewrites
+// r.key with spec.MustCreateRef(r.target) (or its prefix-stripped form).
+func (c *Ctx) isStrippedRecordedRef(fi *core.FuncInfo, ref ast.Expr, site *ast.CallExpr) bool {
+	info := c.info(fi)
+	ref = core.Unparen(ref)
+	if o := core.ObjOf(info, ref); o != nil {
+		if defs := c.P.Locals(fi).Defs[o]; len(defs) == 1 && defs[0].Kind == core.DefAssign && defs[0].Expr != nil {
+			ref = core.Unparen(defs[0].Expr)
+		}
+	}
+	mk, ok := ref.(*ast.CallExpr)
+	if !ok || len(mk.Args) != 1 || len(site.Args) < 2 {
+		return false
+	}
+	if cal := c.P.CalleeAny(fi, mk); cal == nil || cal.FullName() != "github.com/go-openapi/spec.MustCreateRef" {
+		return false
+	}
+	e := core.Unparen(mk.Args[0])
+	for i := 0; i < 3; i++ {
+		call, isCall := e.(*ast.CallExpr)
+		if !isCall {
+			break
+		}
+		if cal := c.P.CalleeAny(fi, call); cal == nil || cal.FullName() != "strings.TrimPrefix" || len(call.Args) != 2 {
+			return false
+		}
+		e = core.Unparen(call.Args[0])
+	}
+	tsel, ok1 := e.(*ast.SelectorExpr)
+	ksel, ok2 := core.Unparen(site.Args[1]).(*ast.SelectorExpr)
+	if !ok1 || !ok2 || core.ObjOf(info, tsel.X) == nil || core.ObjOf(info, tsel.X) != core.ObjOf(info, ksel.X) {
+		return false
+	}
+	rs, _ := c.parents(fi).Enclosing(site, func(n ast.Node) bool { _, r := n.(*ast.RangeStmt); return r }).(*ast.RangeStmt)
+	if rs == nil || rs.Value == nil || core.ObjOf(info, rs.Value) != core.ObjOf(info, tsel.X) {
+		return false
+	}
+	lObj := core.ObjOf(info, rs.X)
+	if lObj == nil || !core.IsSlice(lObj.Type()) {
+		return false
+	}
+	// every append to the list records (key of the loop, string of the loop's $ref with only a prefix stripped)
+	appends, good := 0, true
+	ast.Inspect(fi.Decl.Body, func(n ast.Node) bool {
+		as, isAs := n.(*ast.AssignStmt)
+		if !isAs || len(as.Lhs) != 1 || len(as.Rhs) != 1 || core.ObjOf(info, as.Lhs[0]) != lObj {
+			return true
+		}
+		call, isCall := core.Unparen(as.Rhs[0]).(*ast.CallExpr)
+		if !isCall || !isBuiltin(info, call, "append") {
+			return true // the initial make / nil
+		}
+		appends++
+		outer, _ := c.parents(fi).Enclosing(as, func(n ast.Node) bool { _, r := n.(*ast.RangeStmt); return r }).(*ast.RangeStmt)
+		if outer == nil || outer.Key == nil || outer.Value == nil || len(call.Args) != 2 || core.ObjOf(info, call.Args[0]) != lObj {
+			good = false
+			return true
+		}
+		cl, isLit := core.Unparen(call.Args[1]).(*ast.CompositeLit)
+		if !isLit {
+			good = false
+			return true
+		}
+		keyOK, tgtOK := false, false
+		for _, el := range cl.Elts {
+			kv, ok := el.(*ast.KeyValueExpr)
+			if !ok {
+				continue
+			}
+			name, ok := kv.Key.(*ast.Ident)
+			if !ok {
+				continue
+			}
+			switch name.Name {
+			case ksel.Sel.Name:
+				keyOK = core.ObjOf(info, kv.Value) != nil && core.ObjOf(info, kv.Value) == core.ObjOf(info, outer.Key)
+			case tsel.Sel.Name:
+				recv, onlyStrip := c.refStringSource(fi, kv.Value)
+				tgtOK = recv != nil && onlyStrip && core.ObjOf(info, recv) != nil && core.ObjOf(info, recv) == core.ObjOf(info, outer.Value)
+			}
+		}
+		if !keyOK || !tgtOK {
+			good = false
+		}
+		return true
+	})
+	return good && appends > 0
 }
 
 // baseNameRule (C01, REF-BASENAME): a $ref that is rebuilt as '#/definitions/' + path.Base(<an existing $ref>) keeps
